@@ -326,7 +326,13 @@ func (a *Announce) AnnounceName(name string) bool {
 func (a *Announce) GetStatus(meta types.NamespacedName) []IPAdvertisement {
 	a.RLock()
 	defer a.RUnlock()
-	return a.ips[meta.String()]
+	advs := a.ips[meta.String()]
+	if advs == nil {
+		return nil
+	}
+	res := make([]IPAdvertisement, len(advs))
+	copy(res, advs)
+	return res
 }
 
 // GetInterfaces returns current interfaces list.
